@@ -174,10 +174,14 @@ func verifyFunc(prog *Program, fi *FuncInfo, ct *Contract, opts *Options) (fr *F
 	}
 	e.wordMode = usesWords(fi, ct)
 	e.boxed = findBoxed(fi)
+
 	e.loopOrds = numberLoops(fi.Decl)
 	e.declare("alloc!0", SInt)
 	e.alloc0 = Term{"alloc!0", SInt}
 	e.assumeGlobal(Ge(e.alloc0, IntLit(1)))
+	if e.wordMode {
+		e.needBitLib()
+	}
 	st := &State{vars: map[types.Object]Term{}, heap: map[string]Term{}, pc: True}
 	fd := fi.Decl
 	sig := fi.Obj.Type().(*types.Signature)
@@ -680,6 +684,7 @@ func verifyPureLemma(prog *Program, ct *Contract, opts *Options) (fr *FuncResult
 	fi := &FuncInfo{Key: ct.Key, Pkg: prog.Pkgs[ct.Pkg]}
 	e := newExec(prog, fi, ct, opts)
 	e.wordMode = true
+	e.revealOpaque = true
 	defer func() {
 		if r := recover(); r != nil {
 			if se, ok := r.(specErr); ok {
